@@ -132,6 +132,46 @@ LIB = {}           # dotted name -> LibCallable | Val
 METHODS = {}       # (value kind tag, method name) -> impl(interp, self, args, kwargs)
 
 
+_KW_CACHE = {}
+
+
+def _modelled_kwargs(impl):
+    """keyword names a library model looks at: every string literal it uses with `kwargs` in its own source (kwargs["x"],
+    kwargs.get("x"), "x" in kwargs, set(kwargs) == {...}); None if the source is not available or the model forwards **kwargs wholesale"""
+    key = getattr(impl, "__code__", None)
+    if key in _KW_CACHE:
+        return _KW_CACHE[key]
+    import inspect
+    import re
+    try:
+        src = inspect.getsource(impl)
+    except (OSError, TypeError):
+        _KW_CACHE[key] = None
+        return None
+    names = set(re.findall(r"""kwargs(?:\.get\(|\.pop\(|\[)\s*["']([A-Za-z_]+)["']""", src))
+    names |= set(re.findall(r"""["']([A-Za-z_]+)["']\s+(?:not\s+)?in\s+kwargs""", src))
+    for grp in re.findall(r"""set\(kwargs\)\s*(?:==|<=|-)\s*\{([^}]*)\}""", src):
+        names |= set(re.findall(r"""["']([A-Za-z_]+)["']""", grp))
+    forwards = bool(re.search(r"""\(\s*interp\s*,[^)]*\bkwargs\s*\)""", src)) or "**kwargs" in src or "kwargs.items()" in src or "dict(kwargs)" in src
+    _KW_CACHE[key] = None if forwards else names
+    return _KW_CACHE[key]
+
+
+def _check_kwargs(name, impl, kwargs):
+    """a keyword argument that the library model never looks at would be silently ignored (e.g. `out=`, `where=`, `axis=`): the
+    call is then outside the model -- undecided, never a verdict"""
+    if not kwargs or getattr(impl, "__name__", "") == "<lambda>":      # contract-provided stubs (lambdas) decide about their keywords themselves
+        return
+    known = _modelled_kwargs(impl)
+    if known is None:
+        if "out" in kwargs or "where" in kwargs:
+            raise Unsupported(f"{name}: keyword 'out' / 'where' is not modelled")
+        return
+    extra = [k for k in kwargs if k not in known]
+    if extra:
+        raise Unsupported(f"{name}: keyword argument(s) {extra} are not modelled by the library contract")
+
+
 def lib(*names):
     def deco(f):
         for n in names:
@@ -306,6 +346,8 @@ class Interp:
             if m is not None:
                 if "classmethod" in m.decorators:
                     return BoundMethod(m, ClassRef(obj.cls))
+                if "staticmethod" in m.decorators:
+                    return FuncRef(m)
                 return BoundMethod(m, obj)
             ca = self.find_class_attr(obj.cls, name)
             if ca is not None:
@@ -384,9 +426,11 @@ class Interp:
             return self.call_repo(f.func, [f.self_obj] + list(args), kwargs)
         if isinstance(f, LibCallable):
             self.stats["lib_calls"].add(f.name)
+            _check_kwargs(f.name, f.impl, kwargs)
             return f.impl(self, list(args), dict(kwargs))
         if isinstance(f, BoundLib):
             self.stats["lib_calls"].add(f.name)
+            _check_kwargs(f.name, f.impl, kwargs)
             return f.impl(self, f.self_obj, list(args), dict(kwargs))
         if isinstance(f, ClassRef):
             return self.instantiate(f.cls, args, kwargs)
